@@ -48,6 +48,24 @@ inductive Instr where
   | done (r : Nat)
   deriving Repr, Inhabited
 
+/- equality of programs (the driver compares extracted programs with the table) -/
+mutual
+def beqProg : List Instr → List Instr → Bool
+  | [], [] => true
+  | i :: p, j :: q => beqI i j && beqProg p q
+  | _, _ => false
+termination_by structural p => p
+def beqI : Instr → Instr → Bool
+  | .acq r, .acq r' => r == r'
+  | .rel r, .rel r' => r == r'
+  | .done r, .done r' => r == r'
+  | .once r body, .once r' body' => r == r' && beqProg body body'
+  | _, _ => false
+termination_by structural i => i
+end
+
+instance : BEq Instr := ⟨beqI⟩
+
 /-- `r` is strictly above everything in `held` -/
 def above (r : Nat) (held : List Nat) : Bool := held.all (fun x => decide (x < r))
 
@@ -269,6 +287,42 @@ def apiOps : List (String × List Instr) :=
     ("components_register_tags", tagsBrief) ]
 
 def allRanked : Bool := apiOps.all (fun p => Ranked p.2)
+
+/-! ## The lazy discipline
+
+`lazyOK o m known prog`: the data mutex `m` of a lazy is taken only at points where its
+`Once` `o` is known to have completed - `known`, or after an `once o _` (or the `done o` of an
+unfolded one) earlier in program order - and `o` / `m` are not used in any other way.  This
+is what "`data` is private and `get()` locks it only after `call_once`" amounts to; it is the
+hypothesis of `lazy_store_never_blocks` (Props/C20.lean), the justification for leaving the
+store inside the initialiser out of the programs. -/
+
+def finishes (o : Nat) : Instr → Bool
+  | .once r _ => r == o
+  | .done r => r == o
+  | _ => false
+
+mutual
+def lazyOK (o m : Nat) : Bool → List Instr → Bool
+  | _, [] => true
+  | k, i :: rest => lazyOKI o m k i && lazyOK o m (k || finishes o i) rest
+termination_by structural _ p => p
+def lazyOKI (o m : Nat) : Bool → Instr → Bool
+  | k, .acq r => r != o && (r != m || k)
+  | _, .rel _ => true
+  | _, .done _ => true
+  | k, .once r body => r != m && lazyOK o m k body
+termination_by structural _ i => i
+end
+
+/-- the five lazies: (once, data mutex) -/
+def lazies : List (Nat × Nat) :=
+  [(oFMT, FMT), (oTAGS, TAGS), (oKV, KV), (oFN, FN), (oPARAM, PARAM)]
+
+def lazyDisciplined (prog : List Instr) : Bool :=
+  lazies.all (fun l => lazyOK l.1 l.2 false prog)
+
+def allLazy : Bool := apiOps.all (fun p => lazyDisciplined p.2)
 
 /- the projection of a program onto a set of resources (the tracer cannot see dcbor's
 TAGS and its Once): keeps the structure, drops the instructions on other resources and
